@@ -13,6 +13,10 @@ Part 2: every descriptor regenerated from `/repo/proto/sentinel/**/*.proto` (`Hu
 Part 3: the JSON rendering of the `Status` enum does NOT round-trip (`status_json_roundtrip_fails`);
         it would if it were printed by the `Status_name` table (`status_name_value_roundtrip`).
 
+The model is validated against the real codec by the differential probe (`/verif/harness/probe19`):
+`Proto.runProtoProbe` (model bytes of a value vs `cdc.Marshal`) and `Proto.runProtoDecodeProbe` (model
+`decode` of mutated bytes vs the real `Unmarshal`: same value or both reject).
+
 "Same meaning": a message value is the positional list of its field values (the Go struct); nil and empty
 repeated fields / byte strings are identified, a nil `Int`/`Dec` is 0, a time is its instant (seconds,
 nanoseconds).  Descriptor nesting is resolved through the environment with fuel `depthFuel = 8`; `WF`
@@ -172,6 +176,22 @@ theorem named_types_present :
            "sentinel.session.v2.MsgStartRequest", "sentinel.session.v2.MsgUpdateDetailsRequest", "sentinel.session.v2.MsgEndRequest",
            "sentinel.swap.v1.MsgSwapRequest"],
       (lookup Proto.env n).isSome = true := by
+  decide +kernel
+
+/-- The hypotheses are satisfiable and the model's bytes are the real ones — two golden vectors taken from the
+differential probe (`/verif/harness/cmd/probe19`): a coin, and `cdc.Marshal(&nodetypes.Node{})`, whose two
+zero `time.Time` fields are NOT omitted (11-byte Timestamp of −62135596800 s each). -/
+def nodeDesc : MsgDesc := (lookup Proto.env "sentinel.node.v2.Node").getD ⟨"", []⟩
+
+theorem golden_vectors :
+    Canonical Proto.env coinDesc (.msg [.bytes [117, 100, 118, 112, 110], .int 1000]) ∧
+    encode Proto.env coinDesc (.msg [.bytes [117, 100, 118, 112, 110], .int 1000]) =
+      [0x0a, 0x05, 117, 100, 118, 112, 110, 0x12, 0x04, 49, 48, 48, 48] ∧
+    Canonical Proto.env nodeDesc (defaultMsg Proto.env depthFuel nodeDesc) ∧
+    encode Proto.env nodeDesc (defaultMsg Proto.env depthFuel nodeDesc) =
+      [0x2a, 0x0b, 0x08, 0x80, 0x92, 0xb8, 0xc3, 0x98, 0xfe, 0xff, 0xff, 0xff, 0x01,
+       0x3a, 0x0b, 0x08, 0x80, 0x92, 0xb8, 0xc3, 0x98, 0xfe, 0xff, 0xff, 0xff, 0x01] := by
+  unfold Canonical
   decide +kernel
 
 /-! ## Part 3 — JSON of the `Status` enum (finding F7)
